@@ -23,3 +23,5 @@ try:
 finally:
     sh("git -C /repo checkout -- . && git -C /repo clean -fdq")
     sh("rm -rf /verif/out")
+    # evidence written while /repo carried a seeded change is not evidence about /repo: restore the committed files
+    sh("git -C /verif checkout -- evidence")
